@@ -52,7 +52,7 @@ PROPS = {
     "C13": {
         "units": ["history", "table", "blockdb", "codec"],
         "kani": [],
-        "level_text": "Proof against an abstract Map model written from the statement: per-key history functional postconditions (set_spec / truncated / pruned) + lemmas (window preserved, rollback restores, <= 11 versions); table latest/set/unset/commit/retrieve_cache/clear_cache/reorg/get_range/all (range and full scans: complete, duplicate-free, in encoded-key order, values = what reads return; rollback: every key reads its value as of N and the window below N is preserved); block table get/set/commit/last_key/reorg with loop invariants and termination.",
+        "level_text": "Proof against an abstract Map model written from the statement: per-key history functional postconditions (set_spec / truncated / pruned) + lemmas (window preserved, rollback restores, <= 11 versions) and the whole-trace theorem prop_model_trace: for every sequence of writes, deletes and rollbacks that the contracts admit, the pruned history and a never-pruned per-block model answer the same at every block of the 10-block window below the highest block ever written; table latest/set/unset/commit/retrieve_cache/clear_cache/reorg/get_range/all (range and full scans: complete, duplicate-free, in encoded-key order, values = what reads return; rollback: every key reads its value as of N and the window below N is preserved); block table get/set/commit/last_key/reorg with loop invariants and termination.",
         "level_note": COMMON_TRUST + "Every function of the three files is proved against its real body; the iteration primitives of RocksDB and HashMap/HashSet/sort are trusted wrappers (N9, N16, N28, N33).",
         "assumptions": ["RocksDB iterators return every entry >= start in ascending byte order and do not fail mid-scan (N16)"],
     },
